@@ -165,7 +165,9 @@ def oracle_contract(case):
 def cases(draw, size, depth):
     force = None
     if draw(st.integers(0, 2)) == 0:  # focused: the first chunk kind is drawn uniformly, so every instruction family gets its share
-        force = [draw(st.sampled_from(gp.ALL_KINDS))]
+        # kinds whose instructions build new runtime types (lambdas, collections, conversions) get a larger share
+        force = [draw(st.sampled_from(gp.ALL_KINDS + ["lambda", "lambda", "lambda", "lambdarec", "mapconv", "mapconv", "setmap", "list", "build",
+                                                      "oddlambda", "option_or", "comb"]))]
         size = (1, 3)
     prog = draw(gp.programs(n_inputs=(1, 3), size=size, depth=depth, force=force,
                             profile=draw(st.sampled_from(["core", "core", "collections", "collections", "tickets", "tickets", "tickets", "combs", "combs"]))))
